@@ -541,7 +541,7 @@ Definition check_case (c : Z * Z * list (Z * Z) * list Z * (Z * Z) * Z * Z) : bo
             bnd = sorted(x for x in bnd if 0 <= x < n)
             if not thorough:
                 bnd = rng.sample(bnd, min(len(bnd), 40 if k > 1 else 70))
-            lens = sorted({x for x in ess if 0 <= x < n} | set(bnd) | {rng.randrange(n) for _ in range(6000 if thorough else 30)})
+            lens = sorted({x for x in ess if 0 <= x < n} | set(bnd) | {rng.randrange(n) for _ in range(3000 if thorough else 30)})
         for ln in lens:
             add(k, "trunc", trunc=ln)
         # appended bytes
